@@ -45,7 +45,7 @@ class C05(Check):
         def npp(cases):
             for n, c in enumerate(cases):
                 if n % 5 == 3:
-                    c = dict(c, np_params=('int64', 'int32')[(n // 5) % 2])
+                    c = dict(c, np_params=('int64', 'int32', 'int8', 'uint8', 'int16')[(n // 5) % 5])
                 yield c
         return with_prelude(npp(self._generate(rng, tier, shard, nshards)), rng)
 
